@@ -158,3 +158,30 @@ CHECKS = {
          "builder (three builder variants): each result equals a fresh builder's and definitions accumulate to the order-independent union.",
     note="one open finding (self-referencing dataclass recursion); fixes for _default KeyError, LiteralString, Final, slots and mutable NamedTuple defaults are what make the rest pass"),
 }
+
+
+# dimensions added after the three waves of independent seeded changes (DESIGN.md 10.9, 10.10); appended to the texts above
+ADDENDA = {
+ "C01": " Also in the grammar: two parametrisations of one generic TypedDict / NamedTuple in one field, two plain dataclasses referring to each other, the builtins list / dict without parameters, rarer leaf values (CR LF text, scoped IPv6, 1e16, infinite Decimal).",
+ "C02": " Also: the plain to_dict() of a holder built on a format mixin must stay the default basic form.",
+ "C03": " Also: from_dict of a holder built on the orjson / msgpack mixin (depth <= 1).",
+ "C04": " Also: two ORJSON classes with different Config.orjson_options defined one after the other (5 options x 3 compile styles each, first call with or without an explicit orjson_options=; absolute oracle orjson.dumps(..., option=own); forked per unit), and a subclass instance in a base-typed field through every format mixin (4 shapes x 2 call orders).",
+ "C05": " Also: a subclass of a forbid_extra_keys parent that has a field of its own.",
+ "C06": " Also: 252 tuple types with an unpacked part (nested one level, variadic) generated from a grammar.",
+ "C07": " Also: inherited fields re-declared as a bare class-body default, an init=False member re-declared as a parameter, three-level hierarchies.",
+ "C08": " Also: nested classes whose code-generation flags differ from the outer class (56 uneven pairs), tuple-defaulted fields (one item, enum member, nested).",
+ "C09": " Also: fields split over a parent and a subclass, and a grandparent declaring the field under another alias that the parent re-declares.",
+ "C10": " Also: one-direction dict registrations (per-direction winner over 7-8 slots), use_annotations strategies competing with plain ones, three registered / unregistered types inside one field with an engine name.",
+ "C11": " Also: scalar members behind NewType / Annotated chains up to three deep.",
+ "C12": " Also: the hierarchy built on the orjson mixin with from_dict / from_json interleaved, an abstract intermediate class, and the invariant that the user's Discriminator object stays as written.",
+ "C13": " Also: the format-mixin family (dict / orjson / msgpack calls interleaved), a family with TypedDict / NamedTuple-with-default / Union fields, and dialect options written on a parent Dialect class.",
+ "C14": " Also: a class-level discriminator family (histories and three thread harnesses on its tag registry), helper-method kinds, an explicit encoder argument on a first call.",
+ "C15": " Also: one-shot functions called in sequence with equal-but-different shapes (order-permuted unions, 21 member pairs x 4 spellings).",
+ "C16": " Also: Literal strings as arguments of twin specialisations of a generic dataclass, and long strings.",
+ "C17": " Also: distinct classes with the same __qualname__ in two modules or non-ASCII names of equal length (fields, tuple, union, list, generic arguments), a generic base specialised with a local class, every depth-2 schema with a user class under a wrapper.",
+ "C18": " Also: two sources of no_copy_collections at once (10 listing pairs), the builtins list / dict without parameters, and a decode-side check that excludes only the Any zones.",
+ "C19": " Also: lazily compiled and postponed class trees, and variants of a Config-discriminator hierarchy that inherit the hooks.",
+ "C20": " Also: BFS over build_json_schema(T, context=shared, **override) sequences on one user Context (differential against a fresh equal Context + the Context stays as written).",
+}
+for _k, _v in ADDENDA.items():
+    CHECKS[_k]["text"] += _v
